@@ -54,7 +54,7 @@ LEVELS = {
     },
     'C10': {
         'category': 'other',
-        'text': 'Deductive part (shared with C16): the CSS structure scan reports only well-formed ranges and delimiters (callback contract proved for all inputs after four repairs), match()/balanced_outward() build well-formed ranges from them including the delimiter == -1 case, inner_range/split_value are proved. The callback contract also fixes the token types, their delimiters and their order (ghost state), from which match() is proved to return a range that strictly contains the position, a rule that ends with its closing brace with the body between the braces, and a declaration whose value lies inside it. Innermost-ness and the balanced lists against ground truth are a bounded stand-in (generated nested stylesheets, every position).',
+        'text': 'Deductive part (shared with C16): the CSS structure scan reports only well-formed ranges and delimiters (callback contract proved for all inputs after four repairs), match()/balanced_outward() build well-formed ranges from them including the delimiter == -1 case, inner_range/split_value are proved; a string literal is closed only by the quote that opened it, a line break or the end of input. The callback contract also fixes the token types, their delimiters and their order (ghost state), from which match() is proved to return a range that strictly contains the position, a rule that ends with its closing brace with the body between the braces, and a declaration whose value lies inside it. Innermost-ness and the balanced lists against ground truth are a bounded stand-in (generated nested stylesheets, every position).',
         'design_ref': 'DESIGN.md section 7 (C10)',
         'note': 'Trusted: pyvc encoding. Known findings KF-C10-P (delimiters inside parentheses) and KF-C10-L (leading selector colons) are genuine defects recorded, not repaired.',
         'technique': TECH + '; bounded stand-in: generated stylesheets with ground truth, all positions + exhaustive tiny documents',
@@ -78,19 +78,19 @@ LEVELS = {
     },
     'C01': {
         'category': 'other',
-        'text': 'Proved for all inputs: the implicit-name table of the statement (resolve_implicit_tag against li/tr/td/option/span/div for an arbitrary configured inline list; get_parent_element returns the closest element ancestor) and the markup tokenizer that feeds the parser; the parser itself is proved to terminate and to build a fresh tree without run-time errors (children are attached only by the statement loop, a climb below the top level is clamped by the len(stack) test). The element tree denoted by > + ^ groups and *N is built by mutually recursive list-splicing code; that it equals the denoted tree is decided by a bounded stand-in: every operator skeleton up to 4-5 elements printed FROM the tree, expanded under six configurations and compared by an independent tag parser; random skeletons up to 40 elements.',
+        'text': 'Proved for all inputs: the implicit-name table of the statement (resolve_implicit_tag against li/tr/td/option/span/div for an arbitrary configured inline list; get_parent_element returns the closest element ancestor) and the markup tokenizer that feeds the parser; the parser itself is proved to terminate and to build a fresh tree without run-time errors (children are attached only by the statement loop, a climb below the top level is clamped by the len(stack) test); the converters that unroll the tree (convert_statement / convert_group / convert_element) are proved to leave the tree built by the parser unmodified, to put the repeater of every statement back and to return freshly built node lists. The element tree denoted by > + ^ groups and *N is built by mutually recursive list-splicing code; that it equals the denoted tree is decided by a bounded stand-in: every operator skeleton up to 4-5 elements printed FROM the tree, expanded under six configurations and compared by an independent tag parser; random skeletons up to 40 elements.',
         'design_ref': 'DESIGN.md section 7 (C01)',
         'note': 'Trusted: CPython for the bounded part; the independent tag parser / executable spec of the bounded oracle.',
         'technique': TECH + '; bounded stand-in: exhaustive operator skeletons + random large trees',
-        'clauses': 'P: implicit_tag.resolve_implicit_tag, get_parent_element, abbreviation tokenizer, markup parser (safety, termination); B: skeleton-exhaustive, implicit-name-table, climb-clamp, random-large.',
+        'clauses': 'P: implicit_tag.resolve_implicit_tag, get_parent_element, abbreviation tokenizer, markup parser (safety, termination), converters (frame, stack discipline); B: skeleton-exhaustive, implicit-name-table, climb-clamp, random-large.',
     },
     'C02': {
         'category': 'other',
-        'text': 'Deductive part: recognition of repeater and numbering tokens (tokenizer repeater(), repeater_number(): implicit iff no digits, size == number of $, defaults without @) is proved for all inputs. Copy counts, counters inherited through groups and the maxRepeat semantics are sums over recursive calls and are decided by a bounded stand-in: exhaustive small grammar (N in 1..4, two nesting levels, all numbering forms, every maxRepeat) against an executable reading of the statement.',
+        'text': 'Deductive part: recognition of repeater and numbering tokens (tokenizer repeater(), repeater_number(): implicit iff no digits, size == number of $, defaults without @) is proved for all inputs. The copy loop is under contract (convert_statement with convert_group / convert_element / attach_repeater / clone_repeater / insert_text, and stringify RepeaterNumber / RepeaterPlaceholder): with a ghost counter of completed copies, X*N completes exactly N copies (the number of non-blank lines for an implicit repeater over wrapped lines) unless the maxRepeat guard runs out, in which case at least one copy is made and a repeater entered with the guard used up makes exactly one; every copy is charged to the guard; while a copy is converted the top of the counter stack is the own running repeater of the statement with its copy number in [0, N); at exit the counter stack is back exactly as found (same list, same repeaters, same fields), node.repeat is back in place, and nothing of the tree built by the parser is modified (frame); `$#` only reads the stack. What stays a bounded stand-in: the counters seen through nested groups and the total order of completed copies across recursive calls: exhaustive small grammar (N in 1..4, two nesting levels, all numbering forms, every maxRepeat) against an executable reading of the statement.',
         'design_ref': 'DESIGN.md section 7 (C02)',
-        'note': 'Trusted: CPython for the bounded part; the independent tag parser / executable spec of the bounded oracle.',
+        'note': 'Trusted: CPython for the bounded part; the independent tag parser / executable spec of the bounded oracle. Assumed contracts (trusted=True): AbbreviationNode.__init__ and convert_attribute (names and values are rendered through stringify(), a globals()-based dispatch outside the verified subset), ConvertState.get_text (caller data), convert.some. Assumed typing at the module boundary: the parser stores Repeater tokens in .repeat (class view CvTokenElement/CvTokenGroup). The converters\' frame names two output-node fields class-wide (AbbreviationNode::value, AbbreviationNode::repeat).',
         'technique': TECH + '; bounded stand-in: exhaustive repeater grammar + random',
-        'clauses': 'P: tokenizer repeater/repeater_number; B: copies-maxrepeat, numbering-forms, random-beyond.',
+        'clauses': 'P: tokenizer repeater/repeater_number; convert.convert_statement (ensures_local over the ghost copy counter), convert_group, convert_element, attach_repeater, clone_repeater, insert_text, deepest_node; stringify.RepeaterNumber, RepeaterPlaceholder; B: copies-maxrepeat, numbering-forms, random-beyond (+ clauses added in the third round, see evidence).',
     },
     'C03': {
         'category': 'other',
@@ -102,11 +102,11 @@ LEVELS = {
     },
     'C04': {
         'category': 'other',
-        'text': 'Deductive part: the context-sensitive literal scanning of the tokenizer (literal(), is_allowed_operator/space/repeater) is under contract and proved to tile the input. Verbatim placement end to end is a bounded stand-in: exhaustive text payloads up to length 3-4 over the punctuation alphabet inside {..}, quoted/unquoted attribute values and wrap lines (incl. blank lines, lines that look like syntax, unicode line separators).',
+        'text': 'Deductive part: the context-sensitive literal scanning of the tokenizer (literal(), is_allowed_operator/space/repeater) is under contract and proved to tile the input; insert_text puts wrapped text at the very end of the value of the node (appended to a trailing string, else as a new last item) and `$#` takes the line of the closest implicit repeater (last implicit one on the counter stack), both proved. Verbatim placement end to end is a bounded stand-in: exhaustive text payloads up to length 3-4 over the punctuation alphabet inside {..}, quoted/unquoted attribute values and wrap lines (incl. blank lines, lines that look like syntax, unicode line separators).',
         'design_ref': 'DESIGN.md section 7 (C04)',
         'note': 'Trusted: CPython for the bounded part; the independent tag parser / executable spec of the bounded oracle.',
         'technique': TECH + '; bounded stand-in: exhaustive text payloads and wrap lists',
-        'clauses': 'P: tokenizer literal and context predicates; B: inline-text-exhaustive, attr-text-exhaustive, wrap-implicit-repeater, wrap-whole-text, text-unicode-line-separators.',
+        'clauses': 'P: tokenizer literal and context predicates, convert.insert_text, stringify.RepeaterPlaceholder; B: inline-text-exhaustive, attr-text-exhaustive, wrap-implicit-repeater, wrap-whole-text, text-unicode-line-separators.',
     },
     'C07': {
         'category': 'other',
@@ -126,7 +126,7 @@ LEVELS = {
     },
     'C11': {
         'category': 'other',
-        'text': 'Deductive part, proved for every line, position and option record: extract_abbreviation() returns None or a result with 0 <= start <= location <= end <= len(line), abbreviation == line[location:end], no leading > + ^ *, the configured prefix found at start with the abbreviation to its right, the end moved by look-ahead only across one quote and closing brackets; is_html() is an observer (cursor restored); every backward consumer stays within [start, pos] and terminates. The round trip (a valid abbreviation is extracted exactly) compares with an independent grammar and is a bounded stand-in.',
+        'text': 'Deductive part, proved for every line, position and option record: extract_abbreviation() returns None or a result with 0 <= start <= location <= end <= len(line), abbreviation == line[location:end], no leading > + ^ *, the configured prefix found at start with the abbreviation to its right, the end moved by look-ahead only across one quote and closing brackets; is_html() is an observer (cursor restored); every backward consumer stays within [start, pos] and terminates; a quoted attribute value consumed by the tag heuristic starts and ends with the same quote character. The round trip (a valid abbreviation is extracted exactly) compares with an independent grammar and is a bounded stand-in.',
         'design_ref': 'DESIGN.md section 7 (C11)',
         'note': 'Trusted: pyvc encoding; external contract for re.sub(r"^[*+>^]+", "", s) (suffix starting at the first other character).',
         'technique': TECH + '; bounded stand-in: grammar-generated abbreviations x left/right contexts',
